@@ -234,7 +234,7 @@ fn validation_part(rep: &mut Report, tier: Tier, seed: u64) {
                     let Ok(want) = bigeval::eval(&ctx, &env, e) else { continue };
                     // the three symbol stores
                     let is_bv = matches!(want, Val::BV(..));
-                    let store_kinds: Vec<&str> = if model.iter().all(|m| matches!(m.2, Val::BV(..))) && supplied.as_ref().map(|s| matches!(s.1, Val::BV(..))).unwrap_or(true) { vec!["SymbolValueStore", "FxHashMap", "slice"] } else { vec!["SymbolValueStore"] };
+                    let store_kinds: Vec<&str> = if model.iter().all(|m| matches!(m.2, Val::BV(..))) && supplied.as_ref().map(|s| matches!(s.1, Val::BV(..))).unwrap_or(true) { vec!["SymbolValueStore", "SymbolValueStore(update)", "FxHashMap", "slice"] } else { vec!["SymbolValueStore", "SymbolValueStore(update)"] };
                     let mut point_wrong = false;
                     for sk in store_kinds {
                         r.count("evaluations", 1);
@@ -254,6 +254,41 @@ fn validation_part(rep: &mut Report, tier: Tier, seed: u64) {
                                         }
                                     }
                                     if is_bv && idx % 2 == 0 { real_to_val(&baa::Value::BitVec(eval_bv_expr(&ctx, &st, e))) } else if !is_bv && idx % 2 == 0 { real_to_val(&baa::Value::Array(eval_array_expr(&ctx, &st, e))) } else { real_to_val(&eval_expr(&ctx, &st, e)) }
+                                }
+                                "SymbolValueStore(update)" => {
+                                    // define every symbol with a different value first (all ones / a filled array),
+                                    // then overwrite it through update_bv / update_array / update
+                                    let mut st = SymbolValueStore::default();
+                                    for (s, v) in full.iter() {
+                                        match v {
+                                            Val::BV(_, w) => st.define_bv(*s, &miter::baa_bv(&bigeval::mask(*w), *w)),
+                                            Val::Arr { iw, dw, .. } => {
+                                                let filler = Val::Arr { iw: *iw, dw: *dw, default: bigeval::mask(*dw), map: Default::default() };
+                                                if let baa::Value::Array(a) = miter::to_baa(&filler) {
+                                                    st.define_array(*s, a)
+                                                }
+                                            }
+                                        }
+                                    }
+                                    for (k, (s, v)) in full.iter().enumerate() {
+                                        match miter::to_baa(v) {
+                                            baa::Value::BitVec(b) => {
+                                                if k % 2 == 0 {
+                                                    st.update_bv(*s, &b)
+                                                } else {
+                                                    st.update(*s, baa::Value::BitVec(b))
+                                                }
+                                            }
+                                            baa::Value::Array(a) => {
+                                                if k % 2 == 0 {
+                                                    st.update_array(*s, a)
+                                                } else {
+                                                    st.update(*s, baa::Value::Array(a))
+                                                }
+                                            }
+                                        }
+                                    }
+                                    real_to_val(&eval_expr(&ctx, &st, e))
                                 }
                                 "FxHashMap" => {
                                     let m: rustc_hash::FxHashMap<ExprRef, baa::BitVecValue> = full.iter().map(|(s, v)| (*s, if let Val::BV(x, w) = v { miter::baa_bv(x, *w) } else { unreachable!() })).collect();
